@@ -90,7 +90,8 @@ def write(path, content):
     os.makedirs(os.path.dirname(path), exist_ok=True)
     open(path, "w").write(content)
 
-ORI_PATHS = {"Zero::zero": "0", "T::zero": "0", "Orientation::CounterClockwise": "Ori.ccw",
+ORI_PATHS = {"CoordPos::OnBoundary": "Pos.onBoundary", "CoordPos::Inside": "Pos.inside", "CoordPos::Outside": "Pos.outside",
+             "Zero::zero": "0", "T::zero": "0", "Orientation::CounterClockwise": "Ori.ccw",
              "Orientation::Clockwise": "Ori.cw", "Orientation::Collinear": "Ori.col"}
 
 # (file, header regex, Lean name, Lean parameters, Lean result type, whitelisted functions, receiver substitutions)
@@ -147,9 +148,22 @@ def kernel_functions(repo, outdir):
             die("%s (%s): %s" % (name, rel, e))
         out.append("/-- `%s` — %s -/" % (name, rel))
         out.append("def %s %s : %s :=\n  %s\n" % (name, params, ret, term))
+    # the per-edge body of the winding loop of `coord_pos_relative_to_ring`
+    rel = "geo/src/algorithm/coordinate_position.rs"
+    src = strip_comments(open(os.path.join(repo, rel)).read())
+    try:
+        term = rsexpr.translate_effect_loop(
+            src, r"pub fn coord_pos_relative_to_ring.*?for line in linestring\.lines\(\) \{", ORI_PATHS,
+            {"T::Ker::orient2d": "Geo.orient", "value_in_between": "valueInBetween"},
+            [("line.start", "s"), ("line.end", "e")], "winding_number")
+    except rsexpr.TranslateError as e:
+        die("ringEdge (%s): %s" % (rel, e))
+    out.append("/-- one iteration of the winding loop of `coord_pos_relative_to_ring` — %s:" % rel)
+    out.append("`none` = `return CoordPos::OnBoundary`, `some d` = `winding_number += d` -/")
+    out.append("def ringEdge (coord s e : Pt) : Option Int :=\n  %s\n" % term)
     out += ["end Geo.Gen", ""]
     write(os.path.join(outdir, "Kernel.lean"), "\n".join(out))
-    return len(KERNEL_FNS)
+    return len(KERNEL_FNS) + 1
 
 ENDPT = {"p.start": "p1", "p.end": "p2", "q.start": "q1", "q.end": "q2"}
 
